@@ -367,7 +367,26 @@ func (s *Service) StartWithBackoff(ctx context.Context, rp *runnablePipeline) er
 		// run owns the pipeline now, there is nothing left to recover
 		return nil
 	}
-	return err
+	if err != nil {
+		return err
+	}
+
+	// Until Start published the new run, StopAll and Stop still resolved rp -
+	// this, already ended, run - and found nothing to stop. A shutdown or a
+	// force stop that arrived after the checks above, while the restart was
+	// under way, must not be lost: apply it to the run that was just started.
+	if newRp, ok := s.runningPipelines.Get(rp.pipeline.ID); ok && newRp != rp {
+		switch {
+		case rp.forceStopped.Load():
+			_ = s.stopForceful(ctx, newRp)
+		case s.isShuttingDown():
+			if stopErr := s.stopGraceful(ctx, newRp, pipeline.ErrGracefulShutdown); stopErr != nil {
+				s.logger.Warn(ctx).Err(stopErr).Str(log.PipelineIDField, rp.pipeline.ID).
+					Msg("could not stop the restarted pipeline for the shutdown that began during its restart")
+			}
+		}
+	}
+	return nil
 }
 
 // Stop will attempt to gracefully stop a given pipeline by calling each node's
